@@ -224,27 +224,43 @@ func main() {
 	type shp struct {
 		name  string
 		s     sdf.SDF3
-		size  float64 // edge of the enlarged sampling cube
+		size  float64 // edge of the enlarged sampling cube (longest edge of box when that is set)
 		ns    []int
 		class string
+		box   v3.Vec // non-cubic sampling box (zero: the cube of edge size)
 	}
 	std := vlib.Pick(c, []int{4, 8, 11, 16}, []int{4, 5, 8, 11, 13, 16, 24})
 	shapes := []shp{
-		{"sphere r=1", m3(sdf.Sphere3D(1)), 3, std, "smooth"},
-		{"sphere r=0.7 in 2.8 (lattice points on the surface)", m3(sdf.Sphere3D(0.7)), 2.8, []int{8, 16}, "on-lattice"},
-		{"box 2x1.5x1", m3(sdf.Box3D(v3.Vec{X: 2, Y: 1.5, Z: 1}, 0)), 3, std, "sharp"},
-		{"rounded box", m3(sdf.Box3D(v3.Vec{X: 2, Y: 1.5, Z: 1}, 0.25)), 3, std, "smooth"},
-		{"box rotated 30 about (1,1,1)", sdf.Transform3D(m3(sdf.Box3D(v3.Vec{X: 1.5, Y: 1.5, Z: 1.5}, 0)), sdf.Rotate3d(v3.Vec{X: 1, Y: 1, Z: 1}.Normalize(), sdf.DtoR(30))), 3.4, std, "rotated"},
-		{"cylinder", m3(sdf.Cylinder3D(2, 0.8, 0)), 3, std, "sharp"},
-		{"cone", m3(sdf.Cone3D(2, 0.9, 0.3, 0)), 3, std, "sharp"},
-		{"union sphere+box", sdf.Union3D(m3(sdf.Sphere3D(0.8)), sdf.Transform3D(m3(sdf.Box3D(v3.Vec{X: 1, Y: 1, Z: 1}, 0)), sdf.Translate3d(v3.Vec{X: 0.6}))), 3.4, std, "csg"},
-		{"box minus cylinder", sdf.Difference3D(m3(sdf.Box3D(v3.Vec{X: 2, Y: 2, Z: 1}, 0)), m3(sdf.Cylinder3D(3, 0.5, 0))), 3, std, "csg"},
-		{"cube 0.6 in 1.6 (faces on lattice points, cell 0.1)", m3(sdf.Box3D(v3.Vec{X: 0.6, Y: 0.6, Z: 0.6}, 0)), 1.6, []int{16}, "on-lattice"},
-		{"cube 1.2 in 2.4 (faces on lattice points)", m3(sdf.Box3D(v3.Vec{X: 1.2, Y: 1.2, Z: 1.2}, 0)), 2.4, []int{8, 16}, "on-lattice"},
-		{"cube 1.8 in 3.2 (faces on lattice points)", m3(sdf.Box3D(v3.Vec{X: 1.8, Y: 1.8, Z: 1.8}, 0)), 3.2, []int{16, 32}, "on-lattice"},
+		{"sphere r=1", m3(sdf.Sphere3D(1)), 3, std, "smooth", v3.Vec{}},
+		{"sphere r=0.7 in 2.8 (lattice points on the surface)", m3(sdf.Sphere3D(0.7)), 2.8, []int{8, 16}, "on-lattice", v3.Vec{}},
+		{"box 2x1.5x1", m3(sdf.Box3D(v3.Vec{X: 2, Y: 1.5, Z: 1}, 0)), 3, std, "sharp", v3.Vec{}},
+		{"rounded box", m3(sdf.Box3D(v3.Vec{X: 2, Y: 1.5, Z: 1}, 0.25)), 3, std, "smooth", v3.Vec{}},
+		{"box rotated 30 about (1,1,1)", sdf.Transform3D(m3(sdf.Box3D(v3.Vec{X: 1.5, Y: 1.5, Z: 1.5}, 0)), sdf.Rotate3d(v3.Vec{X: 1, Y: 1, Z: 1}.Normalize(), sdf.DtoR(30))), 3.4, std, "rotated", v3.Vec{}},
+		{"cylinder", m3(sdf.Cylinder3D(2, 0.8, 0)), 3, std, "sharp", v3.Vec{}},
+		{"cone", m3(sdf.Cone3D(2, 0.9, 0.3, 0)), 3, std, "sharp", v3.Vec{}},
+		{"union sphere+box", sdf.Union3D(m3(sdf.Sphere3D(0.8)), sdf.Transform3D(m3(sdf.Box3D(v3.Vec{X: 1, Y: 1, Z: 1}, 0)), sdf.Translate3d(v3.Vec{X: 0.6}))), 3.4, std, "csg", v3.Vec{}},
+		{"box minus cylinder", sdf.Difference3D(m3(sdf.Box3D(v3.Vec{X: 2, Y: 2, Z: 1}, 0)), m3(sdf.Cylinder3D(3, 0.5, 0))), 3, std, "csg", v3.Vec{}},
+		{"cube 0.6 in 1.6 (faces on lattice points, cell 0.1)", m3(sdf.Box3D(v3.Vec{X: 0.6, Y: 0.6, Z: 0.6}, 0)), 1.6, []int{16}, "on-lattice", v3.Vec{}},
+		{"cube 1.2 in 2.4 (faces on lattice points)", m3(sdf.Box3D(v3.Vec{X: 1.2, Y: 1.2, Z: 1.2}, 0)), 2.4, []int{8, 16}, "on-lattice", v3.Vec{}},
+		{"cube 1.8 in 3.2 (faces on lattice points)", m3(sdf.Box3D(v3.Vec{X: 1.8, Y: 1.8, Z: 1.8}, 0)), 3.2, []int{16, 32}, "on-lattice", v3.Vec{}},
+	}
+	// non-cubic sampling boxes (the octree of V1 is cubic, the sampled volume is not)
+	rcyl := m3(sdf.Cylinder3D(4, 1, 0.25))
+	for _, nc := range []shp{
+		{name: "rounded cylinder 2x2x4 in a 2.4x2.4x4.8 box", s: rcyl, box: v3.Vec{X: 2.4, Y: 2.4, Z: 4.8}},
+		{name: "rounded cylinder along x in a 4.8x2.4x2.4 box", s: sdf.Transform3D(rcyl, sdf.RotateY(sdf.DtoR(90))), box: v3.Vec{X: 4.8, Y: 2.4, Z: 2.4}},
+		{name: "rounded cylinder along y in a 2.4x4.8x2.4 box", s: sdf.Transform3D(rcyl, sdf.RotateX(sdf.DtoR(90))), box: v3.Vec{X: 2.4, Y: 4.8, Z: 2.4}},
+		{name: "rounded box 2x1x0.5 in a 2.6x1.3x0.65 box", s: m3(sdf.Box3D(v3.Vec{X: 2, Y: 1, Z: 0.5}, 0.1)), box: v3.Vec{X: 2.6, Y: 1.3, Z: 0.65}},
+		{name: "sphere r=1 in a 3x3.6x4.5 box", s: m3(sdf.Sphere3D(1)), box: v3.Vec{X: 3, Y: 3.6, Z: 4.5}},
+		{name: "sphere r=1 in a 4.5x3x2.5 box", s: m3(sdf.Sphere3D(1)), box: v3.Vec{X: 4.5, Y: 3, Z: 2.5}},
+	} {
+		nc.size = math.Max(nc.box.X, math.Max(nc.box.Y, nc.box.Z))
+		nc.ns = []int{8, 16, 20}
+		nc.class = "non-cubic-box"
+		shapes = append(shapes, nc)
 	}
 	for _, sh := range []v3.Vec{{X: -0.2}, {X: 0.2}, {Z: -0.25}, {Y: 0.25}, {X: -0.25, Y: -0.1, Z: -0.05}, {X: 0.25, Y: 0.1, Z: 0.05}} {
-		shapes = append(shapes, shp{fmt.Sprintf("crescent: unit sphere minus copy shifted by %v", sh), sdf.Difference3D(m3(sdf.Sphere3D(1)), sph(1, sh)), 2.5, []int{8, 11, 16}, "crescent"})
+		shapes = append(shapes, shp{fmt.Sprintf("crescent: unit sphere minus copy shifted by %v", sh), sdf.Difference3D(m3(sdf.Sphere3D(1)), sph(1, sh)), 2.5, []int{8, 11, 16}, "crescent", v3.Vec{}})
 	}
 	type job struct {
 		sh shp
@@ -262,6 +278,9 @@ func main() {
 	states += c.ParFor(len(jobs), func(i int) {
 		j := jobs[i]
 		s := boxed{j.sh.s.Evaluate, cube(v3.Vec{}, j.sh.size)}
+		if j.sh.box != (v3.Vec{}) {
+			s.bb = sdf.Box3{Min: j.sh.box.MulScalar(-0.5), Max: j.sh.box.MulScalar(0.5)}
+		}
 		ts := j.st.run(s, j.n)
 		h := j.sh.size / float64(j.n)
 		if len(j.st.name) > 2 && j.st.name[:2] == "V1" {
